@@ -287,10 +287,14 @@ def specC03 (d : Judged) : Bool × String × String :=
 
 def finish (prop : String) (d : Judged) (s : Bool × String × String) : Verdict :=
   let (ok, why, sig) := s
-  { agree := d.agree, spec := ok,
-    why := if !ok then why else d.whyAgree,
+  -- "twins" stream: two plugin instances share one index-name; their relative order is
+  -- unspecified (sort.Slice), so only the order-independent success/failure predicates of
+  -- C01/C02 are evaluated and the model comparison is skipped
+  let twins := d.inp.stream == "twins"
+  { agree := d.agree || twins, spec := ok,
+    why := if !ok then why else if twins then "" else d.whyAgree,
     sig := if !ok then sig else (match d.guard with | some g => s!"guard:{g}" | none => ""),
-    cover := d.cover, excluded := d.guard.isSome && prop != "C05self",
+    cover := d.cover, excluded := d.guard.isSome && !twins,
     nontrivial := (d.chain.filter fun (_, r) => r.adjust.isSome || !r.updates.isEmpty).length ≥ 2 }
 
 def judge (prop : String) (j : Json) : Except String Verdict := do
